@@ -739,6 +739,27 @@ var Faults = []Fault{
 		}
 		return false
 	}},
+	{"variable-inner-nullability", "VariablesInAllowedPosition", func(c *FCtx) bool {
+		// loosen the non-null marker of a list level below the top of a variable's declared type
+		for _, d := range c.ops() {
+			for i := range d.Vars {
+				v := &d.Vars[i]
+				var levels []*m.Type
+				for t := v.Type.Elem; t != nil; t = t.Elem {
+					if t.NonNull {
+						levels = append(levels, t)
+					}
+				}
+				if len(levels) == 0 {
+					continue
+				}
+				levels[c.R.Intn(len(levels))].NonNull = false
+				v.Default = nil
+				return true
+			}
+		}
+		return false
+	}},
 	{"unknown-fragment", "KnownFragmentNames", func(c *FCtx) bool {
 		s, ok := c.pick(c.sites(), func(s selSite) bool { return s.parent != nil && s.parent.IsComposite() })
 		if !ok {
